@@ -61,12 +61,15 @@ func verifyFunction(w *World, ss *SpecSet, fn *ssa.Function, spec *FuncSpec) (re
 		e.ctx.declare(e.nextRef0, sInt)
 		e.ctx.assume(lt("0", e.nextRef0))
 	}
-	for _, g := range ss.GhostVars {
+	for _, gk := range sortedKeys(ss.GhostVars) {
+		g := ss.GhostVars[gk]
 		env := &SpecEnv{ex: e, st: nil, vars: map[string]Val{}}
 		env.st = &State{pc: "true", heaps: map[string]string{}, ghost: map[string]Val{}, cells: map[*ssa.Alloc]Val{}, nextRef: e.nextRef0}
 		env.ghostVar(g)
 	}
-	st := &State{pc: "true", cells: map[*ssa.Alloc]Val{}, heaps: map[string]string{}, ghost: map[string]Val{}, nextRef: e.nextRef0}
+	e.stateSeq = 1
+	e.ctx.tag = 1
+	st := &State{id: 1, pc: "true", cells: map[*ssa.Alloc]Val{}, heaps: map[string]string{}, ghost: map[string]Val{}, nextRef: e.nextRef0}
 	e.entry = st.clone()
 	fr := e.newFrame(fn, spec, e.key)
 	fr.entrySt = e.entry
@@ -115,7 +118,7 @@ func verifyFunction(w *World, ss *SpecSet, fn *ssa.Function, spec *FuncSpec) (re
 	}
 	// facts established by the package initialiser about never-reassigned globals
 	for _, g := range ss.Globals {
-		if fn.Pkg == nil || g.Pkg != fn.Pkg.Pkg.Path() {
+		if fn.Pkg == nil || g.Pkg != fn.Pkg.Pkg.Path() || e.ctx.bv {
 			continue
 		}
 		env := e.specEnv(fr, st, nil)
@@ -127,7 +130,7 @@ func verifyFunction(w *World, ss *SpecSet, fn *ssa.Function, spec *FuncSpec) (re
 	// vacuity: preconditions together with the background facts are satisfiable
 	{
 		o := &Obligation{Name: e.key + "#vac-req@1", Kind: "vac-req", Func: e.key, Pos: res.Pos,
-			Desc: "preconditions are satisfiable", nhyps: len(e.ctx.hyps), pc: "true", goal: "true", ctx: e.ctx, Vacuity: true, Props: spec.Props}
+			Desc: "preconditions are satisfiable", nhyps: len(e.ctx.hyps), pc: "true", goal: "true", ctx: e.ctx, Vacuity: true, Props: spec.Props, state: 1}
 		e.ctx.obls = append(e.ctx.obls, o)
 	}
 	fr.onReturn = func(rst *State, rs []Val, pos token.Pos) {
@@ -146,7 +149,7 @@ func verifyFunction(w *World, ss *SpecSet, fn *ssa.Function, spec *FuncSpec) (re
 		}
 		// reachability cover of this return
 		o := &Obligation{Kind: "vac-reach", Func: e.key, Pos: w.pos(pos), Desc: "return is reachable under the preconditions",
-			nhyps: len(e.ctx.hyps), pc: rst.pc, goal: "true", ctx: e.ctx, Vacuity: true, Props: spec.Props}
+			nhyps: len(e.ctx.hyps), pc: rst.pc, goal: "true", ctx: e.ctx, Vacuity: true, Props: spec.Props, state: rst.id}
 		e.obCount[e.key+"#vac-reach"]++
 		o.Name = fmt.Sprintf("%s#vac-reach@%d", e.key, e.obCount[e.key+"#vac-reach"])
 		e.ctx.obls = append(e.ctx.obls, o)
